@@ -6,6 +6,26 @@ ASSUMPTIONS = ['ncmpio_NC_check_vlen is abstracted by its contract (ghost boolea
 EXPLANATION = 'size-rule decision logic at enddef against the format rules for every kind/order of up to 4 variables; product leaf on bounded widths and threshold constants'
 ED = ['src/drivers/ncmpio/ncmpio_enddef.c']
 
+def subarray64_jobs(tier, prop):
+    # file type of a subarray request with a dimension or start beyond 2^31-1 (CDF-5): (ndims, dimension lengths, element size, extra canary)
+    P31 = 1 << 31
+    inst = [(2, (3, P31 + 64, 1), 1, None), (2, (P31 + 5, 7, 1), 4, None), (1, ((1 << 32) + 10, 1, 1), 2, None), (3, (3, 4, P31 + 1), 1, None),
+            (2, (100, 200, 1), 4, 'small'), (3, (P31 + 5, 2, 2), 8, 'overflow')]
+    if tier != 'quick':
+        inst += [(3, (2, P31 + 3, 5), 2, None), (2, ((1 << 40), (1 << 20), 1), 1, None)]
+    js = []
+    for nd, sz, el, extra in inst:
+        can = ['small_path'] if extra == 'small' else (['large_path_with_offset_in_the_slowest_dimension'] if sz[0] > 1 else []) + \
+              (['start_beyond_2e31'] if sz[nd - 1] > P31 else []) + (['eintoverflow'] if extra == 'overflow' else [])
+        js.append(Job('%s/type_create_subarray64/ndims%d_%s_el%d' % (prop, nd, 'x'.join(str(x) for x in sz[:nd]), el), prop,
+                      ['src/drivers/ncmpio/ncmpio_filetype.c', 'src/drivers/common/error_mpi2nc.c'], 'C18_subarray64.c', enforce='ncmpio_filetype.c:type_create_subarray64',
+                      defines=['-DND=%d' % nd, '-DSZ0=%dLL' % sz[0], '-DSZ1=%dLL' % sz[1], '-DSZ2=%dLL' % sz[2], '-DEL=%d' % el] +
+                              (['-DEXPECT_SMALL'] if extra == 'small' else []) + (['-DEXPECT_OVERFLOW'] if extra == 'overflow' else []),
+                      canaries=can, unwind=5, kind='bounded', timeout=600,
+                      bound='%d dimensions of lengths %s (enumerated), element size %d; starts and counts symbolic inside the shape' % (nd, list(sz[:nd]), el),
+                      assumptions=['type_create_subarray64: MPI datatype constructors (hvector, hindexed, resized, subarray, get_extent, free) are a harness model with bodies that records the type map parameters']))
+    return js
+
 def jobs(tier, ws):
     js = []
     for nv in ([1, 2, 3] if tier == 'quick' else [1, 2, 3, 4, 5]):
@@ -25,6 +45,7 @@ def jobs(tier, ws):
                           defines=['-DH_vlen', '-DNDIMS=%d' % nd, '-DVLEN_MAX=%dLL' % lim, '-DSHAPE_MAX=%dLL' % smax, '-DNVARS=1'],
                           canaries=['fits'] + (['too_big'] if nd >= 1 and smax * (smax if nd > 1 else 1) * 8 > lim else []), unwind=5, kind='bounded', solver=(['--sat-solver', 'cadical'] if nd >= 2 else []),
                           bound='ndims=%d, dimension lengths <= %d, limit of CDF-%d' % (nd, smax, fmt), timeout=600))
+    js += subarray64_jobs(tier, 'C18')
     import C03
     js += C03.begins_jobs(tier, 'C18', [(3, 512, 4)] if tier == 'quick' else [(3, 512, 4), (4, 512, 512)])
     return js
